@@ -261,3 +261,9 @@ def visitors_unit(kf):
 
 UNITS['c10_visitors'] = (['C10'], visitors_unit)
 SEARCH['c10_visitors'] = ['c10_complexity']
+
+BOUNDED = {'C10': [dict(case='c10_complexity', function='limit_complexity / limit_depth end to end: validation::visitors::{ComplexityCalculate, DepthCalculate} through the visit_* driver, VisitorContext::param_value, derive-generated compute_complexity closures, check_rules',
+                        bound='16 documents (aliases, fragments, custom complexity expressions, variables with defaults) x {complexity, depth} x limits {m-1, m, m+1, ...} against an independent measure of the document',
+                        why='the visitor driver and the derive-generated complexity closures are outside Verus; the visitor hooks and the limit comparison are under contract'),
+                   dict(case='c10_depth', function='check_recursive_depth through the public API (limit_recursive_depth)', bound='generated nesting shapes incl. spread fragments and cycles, limits around the measured nesting', why='ties the proved walker to the real call site in prepare_request (async)'),
+                   dict(case='c10_directives', function='check_max_directives through the public API (limit_directives)', bound='generated documents with 0-4 directives per field / fragment, limits around the maximum', why='ties the proved walker to the real call site in prepare_request (async)')]}
